@@ -42,6 +42,8 @@ ALSO = {
     # two-site: the checker stops validating the body of a fragment whose type condition is not composite (a C03 break on its
     # own: `... on Role { id }` is accepted) and the printer panics on such a condition
     "C08-r6m1": ["C08", "C03"],
+    # normalize_path cancels `..` only below a depth: filed under C13 (imports land on the wrong file); the path function is C20's
+    "C13-r6m1": ["C13", "C20"],
 }
 
 
